@@ -41,6 +41,10 @@ Definition socks_wiring_ok : bool :=
      an already expired deadline, never "no deadline" *)
   String.eqb socks_read_deadline "time.Now().Add(recv.timeout)" &&
   String.eqb socks_write_deadline "time.Now().Add(recv.timeout)" &&
+  (* "nothing to report" is the nil INTERFACE: the value Scan stores in its scan.Result result does not come from a
+     helper whose declared result is a pointer type (a nil *ScanResult in the interface is a typed nil, which the
+     engine's `result != nil` takes for a record and whose printing panics) *)
+  negb socks_result_typed_nil_hazard &&
   (* the record's address and port are the request's *)
   String.eqb socks_result_ip_from "request.DstIP.String()" &&
   String.eqb socks_result_port_from "request.DstPort" &&
